@@ -185,3 +185,37 @@ V("DT4-revert-native-order", "C14", "DT4",
 V("LN1-own-multiplication", "C14", "LN1",
   ("reader.py", "            object_metadata.num_values += _number_of_segment_values(segment_object, segment)\n",
    "            if segment_object.has_data:\n                object_metadata.num_values += segment_object.number_values * segment.num_chunks\n"))
+
+# ---------------------------------------------------------------- C08 (BL5/BL6/PO1/WT1)
+V("BL5-revert-string-index-20", "C08", "BL5",
+  ("writer.py", "                return [Uint32(28), data_type, dimension, num_values, Uint64(total_size)]\n", "                return [Uint32(20), data_type, dimension, num_values, Uint64(total_size)]\n"))
+V("BL5-numeric-index-24", "C08", "BL5",
+  ("writer.py", "            return [Uint32(20), data_type, dimension, num_values]\n", "            return [Uint32(24), data_type, dimension, num_values]\n"))
+V("BL5-string-prefix-char-count", "C08", "BL5",
+  ("types.py", "        length = _struct_pack('<L', len(content))\n", "        length = _struct_pack('<L', len(value))\n"))
+V("BL5-leadin-without-data-size", "C08", "BL5",
+  ("writer.py", "        next_segment_offset = metadata_size + self._data_size()\n", "        next_segment_offset = metadata_size\n"))
+V("BL5-metadata-twice", "C08", "BL5",
+  ("writer.py", "        file.write(b''.join(val.bytes for val in metadata))\n", "        file.write(b''.join(val.bytes for val in self.metadata()))\n"))
+V("BL5-string-size-chars", "C08", "BL5",
+  ("writer.py", "        try:\n            encoded_strings = [s.encode(\"utf-8\") for s in data_values]\n        except AttributeError:\n            encoded_strings = data_values\n        return sum(4 + len(s) for s in encoded_strings)\n",
+   "        return sum(4 + len(s) for s in data_values)\n"))
+V("BL5-data-size-other-predicate", "C08", "BL5",
+  ("writer.py", "        for obj in self.objects:\n            if _has_raw_data(obj):\n                data_size += object_data_size(obj.data_type, obj.data)\n",
+   "        for obj in self.objects:\n            if hasattr(obj, 'data'):\n                data_size += object_data_size(obj.data_type, obj.data)\n"))
+V("BL6-index-data-size-zero", "C08", "BL6",
+  ("writer.py", "    def _data_size(self):\n        data_size = 0\n", "    def _data_size(self):\n        data_size = 0\n        if self.is_index_file:\n            return 0\n"))
+V("BL6-index-different-version", "C08", "BL6",
+  ("writer.py", "            segment = TdmsSegment(objects, is_index_file=True, version=self._tdms_version)\n", "            segment = TdmsSegment(objects, is_index_file=True)\n"))
+V("PO1-drop-sort", "C08", "PO1",
+  ("writer.py", "        path_object_pairs.sort(key=lambda p: _path_ordering_key(p[0]))\n", ""))
+V("PO1-state-before-write", "C08", "PO1",
+  ("writer.py", "        objects = [p[1] for p in path_object_pairs]\n        segment = TdmsSegment(objects, version=self._tdms_version)\n",
+   "        self._root_written = True\n        objects = [p[1] for p in path_object_pairs]\n        segment = TdmsSegment(objects, version=self._tdms_version)\n"))
+V("PO1-key-channel-before-group", "C08", "PO1",
+  ("writer.py", "    if path.is_group:\n        return 1\n    if path.is_channel:\n        return 2\n", "    if path.is_group:\n        return 2\n    if path.is_channel:\n        return 1\n"))
+V("WT1-newobjlist-conditional", "C08", "WT1",
+  ("writer.py", "        toc = ['kTocMetaData', 'kTocRawData', 'kTocNewObjList']\n", "        toc = ['kTocMetaData', 'kTocRawData']\n        if not self.is_index_file:\n            toc.append('kTocNewObjList')\n"))
+V("C08-benign-rename-local", "C08", None,
+  ("writer.py", "        next_segment_offset = metadata_size + self._data_size()\n        raw_data_offset = metadata_size\n        leadin.append(Uint64(next_segment_offset))\n        leadin.append(Uint64(raw_data_offset))\n",
+   "        next_offset = metadata_size + self._data_size()\n        data_offset = metadata_size\n        leadin.append(Uint64(next_offset))\n        leadin.append(Uint64(data_offset))\n"))
